@@ -28,9 +28,12 @@ CONDS = [
          'placeholder strings (all of Unicode) into one of seven elements',
          'len(dir) <= 4, len(lang) <= 3, len(type) <= 2, len(name), len(placeholder) <= 1',
          timeout={'quick': 110, 'thorough': 900}, parts={'quick': 5, 'thorough': 10}),
+    Cond('surrogate_ok', 'lone surrogates (surrogateescape-decoded or API-assigned text) in the values the state pseudo-classes read, '
+         'in attribute names and in element names: every entry point returns for every selector of the pool', 'selector pool x 5 '
+         'strings x 3 placements', timeout={'quick': 100, 'thorough': 300}, parts={'quick': 2, 'thorough': 2}),
     Cond('odd_values_ok', 'attribute / class / id selectors on elements whose t / class / id attribute holds None, '
          'numbers, bool, bytes, nested lists, tuples, empty lists (HTML and XML trees)',
-         '19 selectors x 14 odd values x 3 attributes x 2 document kinds (enumerated by symbolic index)',
+         '19 selectors x 22 odd values x 3 attributes x 2 document kinds (enumerated by symbolic index)',
          timeout={'quick': 110, 'thorough': 900}, parts={'quick': 4, 'thorough': 4}),
     Cond('non_tag_target_ok', 'str / None / int / NavigableString / Comment as call target raise TypeError only',
          'selector pool x 5 non-Tag values', timeout={'quick': 60, 'thorough': 300}, parts={'quick': 2, 'thorough': 2}),
